@@ -159,6 +159,8 @@ def simulate(plan, taps_kwargs=None, keep_dir=False):
                 break
     except SimCrash:
         hist['crashed'] = True
+    except core.Hang:
+        raise                # the per-plan watchdog is the harness's own signal (status 'hang'), never an observation
     except Exception as e:   # an exception escaping the real routine is an observation, not a harness error
         import traceback
         tb = traceback.extract_tb(e.__traceback__)
@@ -186,7 +188,12 @@ def simulate(plan, taps_kwargs=None, keep_dir=False):
 # --------------------------------------------------------------------------------------------
 
 def t_reached(hist):
-    return hist['segments'][-1]['t_end'] if hist['segments'] else 0.0
+    """Time reached: dae.t at the end of the last segment, but never less than the last accepted (stored) instant --
+    after a failed run dae.t has been rewound through rejected attempts and may sit one ulp below it."""
+    t = hist['segments'][-1]['t_end'] if hist['segments'] else 0.0
+    if hist.get('store_log'):
+        t = max(t, float(hist['store_log'][-1]['t']))
+    return t
 
 
 def run_ok(hist):
